@@ -25,6 +25,7 @@ type signRec struct {
 	ts      int64
 	sig     string
 	step    int // op index
+	dup     bool
 }
 
 // monitor holds the oracles of the consensus-network simulation.
@@ -168,6 +169,9 @@ func (m *monitor) judgeSignatures(n *simNode) {
 	}
 	for i := from; i < len(recs); i++ {
 		rec := recs[i]
+		if rec.dup {
+			continue // judged when it was first released
+		}
 		switch {
 		case rec.typ == int(tmproto.PrevoteType):
 			m.notePrevote(n.idx, rec.h, rec.r, recKey(rec), n.addr)
@@ -293,6 +297,7 @@ func (s *sim) onSigned(n *simNode, chainID string, v *tmproto.Vote, p *tmproto.P
 			s.env.Report(prop, "resigned-with-new-timestamp", "node %d released two signatures for h=%d r=%d type=%d differing in timestamp/signature (incarnations %d, %d): the earlier one must be reused", n.idx, rec.h, rec.r, rec.typ, o.inc, rec.inc)
 		} else {
 			s.env.Count("probe.signature_reused")
+			rec.dup = true // the very same signed message released again (WAL replay, re-signing after a crash)
 		}
 	}
 	m.signs[n.idx] = append(m.signs[n.idx], rec)
